@@ -151,6 +151,9 @@ def run(ctx):
                         res.find(key, g.loc(t.get("sp")), "%s formats a value of type %s (which can hold a Qubit/Target placeholder) through %s instead of its Quil writer" % (owner.path, db.ty_s(ti)[:80], c.get("name")[4:]), "to_quil() succeeds on a program with an unresolved placeholder and emits text that does not parse")
     res.count("format_arguments_in_writers", nfmt, floor=50)
     res.site("K2|formatted-not-written", True, {"format_arguments": nfmt})
+    # shared with C02: literal operands must re-lex as the same kind of literal
+    from qv.props.c02 import real_literal_rule
+    real_literal_rule(db, res, [w for w in writers if hasattr(w, "impl_self_path")])
     # R4
     for name, const in (("to_quil", 0), ("to_quil_or_debug", 1)):
         fs = [f for f in db.fns if f.path == "quil_rs::quil::Quil::" + name]
